@@ -351,7 +351,15 @@ fn run_program(defs: &Defs, len: usize, shape: Shape, ops: &[Value], merged: boo
                     }
                     let via_utf8 = op["via"].as_str() == Some("utf8");
                     let mut ok = true;
-                    if via_utf8 {
+                    if op["via"].as_str() == Some("tty") {
+                        let mut tw = CellWrite::by_ref(&mut w).tty_writer();
+                        for c in &chunks {
+                            if tw.write(c).is_err() {
+                                ok = false;
+                                break;
+                            }
+                        }
+                    } else if via_utf8 {
                         let mut uw = CellWrite::by_ref(&mut w).utf8_writer();
                         for c in &chunks {
                             if uw.write(c).is_err() {
@@ -390,7 +398,9 @@ fn op_coq(defs: &Defs, op: &Value) -> String {
         "wraps" => format!("(OWraps {})", cbool(op["b"].as_bool().unwrap_or(true))),
         "write" => {
             let chunks = clist(op["chunks"].as_array().map(|a| a.iter().map(|c| cbytes(&vbytes(c))).collect::<Vec<_>>()).unwrap_or_default());
-            if op["via"].as_str() == Some("utf8") {
+            if op["via"].as_str() == Some("tty") {
+                format!("(OWriteT {})", chunks)
+            } else if op["via"].as_str() == Some("utf8") {
                 format!("(OWriteU {})", chunks)
             } else {
                 format!("(OWrite {})", chunks)
@@ -454,6 +464,102 @@ fn decode_lenient(bytes: &[u8], out: &mut Vec<u32>) {
 // (surrogates, values above 0x10FFFF) is undefined behaviour / a debug abort: the subject of
 // C02, kept out of this property's inputs (such a case is recorded as skipped).
 
+// ---------- escape sequences ----------
+/// byte ranges of the form ESC [ [0-9:;]* m in a stream
+fn sgr_seqs(bytes: &[u8]) -> Vec<Vec<u8>> {
+    let mut out = vec![];
+    let mut i = 0;
+    while i < bytes.len() {
+        if bytes[i] == 0x1b && bytes.get(i + 1) == Some(&b'[') {
+            let mut j = i + 2;
+            while j < bytes.len() && matches!(bytes[j], b'0'..=b'9' | b':' | b';') {
+                j += 1;
+            }
+            if bytes.get(j) == Some(&b'm') {
+                out.push(bytes[i..=j].to_vec());
+            }
+        }
+        i += 1;
+    }
+    out
+}
+
+fn face_parts(f: &Face) -> (Option<u64>, Option<u64>, u64) {
+    (f.fg.map(rgba_code), f.bg.map(rgba_code), attrs_bits(f.attrs))
+}
+
+/// ((sequence, face before), face after) for every SGR sequence of the program's tty writes and
+/// every face reachable from the faces the program sets, as computed by the crate's own
+/// TTYCommandDecoder + FaceModify::apply (their meaning is the subject of C06, not of C09)
+fn sgr_table(ops: &[Value]) -> String {
+    use surf_n_term::decoder::{Decoder, TTYCommandDecoder};
+    let mut seqs: Vec<Vec<u8>> = vec![];
+    let mut faces: Vec<Face> = vec![Face::default()];
+    for op in ops {
+        if op["o"] == "face" {
+            faces.push(face_from(&op["face"]));
+        }
+        if op["o"] == "write" && op["via"].as_str() == Some("tty") {
+            let bytes: Vec<u8> = op["chunks"].as_array().map(|a| a.iter().flat_map(vbytes).collect()).unwrap_or_default();
+            for s in sgr_seqs(&bytes) {
+                if !seqs.contains(&s) {
+                    seqs.push(s);
+                }
+            }
+        }
+    }
+    if seqs.is_empty() {
+        return "[]".to_string();
+    }
+    let mods: Vec<Option<surf_n_term::FaceModify>> = seqs
+        .iter()
+        .map(|s| {
+            let mut d = TTYCommandDecoder::new();
+            let mut cur = std::io::Cursor::new(&s[..]);
+            match d.decode(&mut cur) {
+                Ok(Some(TerminalCommand::FaceModify(m))) => Some(m),
+                _ => None,
+            }
+        })
+        .collect();
+    let mut rows = vec![];
+    let mut k = 0;
+    while k < faces.len() && faces.len() < 120 {
+        let f = faces[k];
+        for (s, m) in seqs.iter().zip(mods.iter()) {
+            if let Some(m) = m {
+                let g = m.apply(f);
+                let (a, b, c) = face_parts(&f);
+                let (x, y, z) = face_parts(&g);
+                rows.push(format!("({}, {}, {})", cbytes(s), face_coq_parts(a, b, c), face_coq_parts(x, y, z)));
+                if !faces.iter().any(|h| face_parts(h) == face_parts(&g)) {
+                    faces.push(g);
+                }
+            }
+        }
+        k += 1;
+    }
+    clist(rows)
+}
+
+/// the automaton of TTYCommandDecoder as the crate compiles it
+pub fn dfa_preamble() -> String {
+    let d = surf_n_term::decoder::verif::dump_dfa("command").expect("dump");
+    let mut ranges: Vec<(usize, u8, u8, usize)> = vec![];
+    for (f, s, t) in d.transitions.iter().cloned() {
+        match ranges.last_mut() {
+            Some((cf, _, hi, ct)) if *cf == f && *ct == t && *hi as u16 + 1 == s as u16 => *hi = s,
+            _ => ranges.push((f, s, s, t)),
+        }
+    }
+    let trans = clist(ranges.iter().map(|(f, lo, hi, t)| format!("({}, {}, {}, {})", cnat(*f), lo, hi, cnat(*t))));
+    let infos = clist(d.infos.iter().map(|(a, t, tags)| {
+        let tag = tags.first().and_then(|s| s.strip_prefix('M')).and_then(|s| s.parse::<usize>().ok()).unwrap_or(99);
+        format!("({}, {}, {})", cbool(*a), cbool(*t), cnat(tag))
+    }));
+    format!("Definition the_dfa : dfa := mkDfa {} {} {}.\n", cnat(d.start), trans, infos)
+}
+
 fn run_w(input: &Value) -> Case {
     let h = input["H"].as_u64().unwrap_or(1) as usize;
     let w = input["W"].as_u64().unwrap_or(1) as usize;
@@ -469,7 +575,7 @@ fn run_w(input: &Value) -> Case {
     // the writer's own decoder persists across write operations; utf8_writer() starts afresh
     let own_bytes: Vec<u8> = ops
         .iter()
-        .filter(|o| o["o"] == "write" && o["via"].as_str() != Some("utf8"))
+        .filter(|o| o["o"] == "write" && o["via"].as_str() != Some("utf8") && o["via"].as_str() != Some("tty"))
         .flat_map(|o| o["chunks"].as_array().map(|a| a.iter().flat_map(vbytes).collect::<Vec<u8>>()).unwrap_or_default())
         .collect();
     decode_lenient(&own_bytes, &mut chars);
@@ -487,7 +593,7 @@ fn run_w(input: &Value) -> Case {
         )
     };
     let head = format!(
-        "CW {} {} {} {} {} {} {} {}",
+        "CW {} {} {} {} {} {} {} the_dfa {} {}",
         cnat(h),
         cnat(w),
         cnat(len),
@@ -495,6 +601,7 @@ fn run_w(input: &Value) -> Case {
         copt(custom.map(|s| shape_coq(&s))),
         cbool(input["glyphs"].as_bool().unwrap_or(true)),
         defs.width_table(&chars),
+        sgr_table(&ops),
         clist(ops.iter().map(|o| op_coq(&defs, o)))
     );
     let mut j = input.clone();
@@ -525,6 +632,7 @@ fn run_w(input: &Value) -> Case {
         format!("view={}", if custom.is_some() { "strided" } else if vops.iter().any(|o| matches!(o, VOp::T)) { "transposed" } else if vops.is_empty() { "plain" } else { "offset" }),
         format!("area={}", if area == 0 { "0" } else if area < 4 { "1-3" } else { "4+" }),
         format!("multi_chunk={}", multi),
+        format!("tty={}", ops.iter().any(|o| o["via"].as_str() == Some("tty"))),
         format!("glyphs={}", input["glyphs"].as_bool().unwrap_or(true)),
     ];
     Case { coq: format!("{} {} {}", head, res(&r1), res(&r2)), json: j, tags, nontrivial: area >= 2 && area < len && (multi || special) && !unsafe_stream }
@@ -688,6 +796,55 @@ fn gen_face(rng: &mut Rng) -> Value {
     json!({"fg": col(rng), "bg": col(rng), "attrs": attrs})
 }
 
+/// a face whose underline style is at most straight (SGR underline is OR-ed into the style bits by
+/// FaceModify::apply; styles above 1 could combine to values the public API cannot report)
+fn gen_face_plain_underline(rng: &mut Rng) -> Value {
+    let mut f = gen_face(rng);
+    let a = f["attrs"].as_u64().unwrap_or(0);
+    f["attrs"] = json!((a & !7) | (a & 1));
+    f
+}
+
+const SGR_PARAMS: [&str; 22] = [
+    "", "0", "1", "3", "4", "5", "9", "21", "23", "24", "25", "29", "31", "92", "44", "103", "38;5;196", "48;5;21", "38;2;1;2;3", "48;2;200;100;50",
+    "38:5:33", "58;5;1",
+];
+
+fn gen_tty_bytes(rng: &mut Rng, maxitems: usize) -> Vec<u8> {
+    let n = 1 + rng.below(maxitems as u64) as usize;
+    let mut b = vec![];
+    for _ in 0..n {
+        match rng.below(10) {
+            0..=3 => b.extend(utf8_of(&[gen_char(rng, true)])),
+            4..=7 => {
+                b.extend(b"\x1b[");
+                let k = rng.below(3) as usize;
+                for i in 0..=k {
+                    if i > 0 || rng.chance(1, 8) {
+                        b.push(b';');
+                    }
+                    b.extend(rng.pick(&SGR_PARAMS).as_bytes());
+                }
+                if rng.chance(1, 8) {
+                    b.push(b';');
+                }
+                b.push(b'm');
+            }
+            8 => {
+                // broken sequences: lone ESC, aborted CSI, ESC before a complete sequence
+                match rng.below(4) {
+                    0 => b.push(0x1b),
+                    1 => b.extend(b"\x1b[1;x"),
+                    2 => b.extend(b"\x1b\x1b[1m"),
+                    _ => b.extend(b"\x1b[3"),
+                }
+            }
+            _ => b.push(*rng.pick(&[0x80u8, 0xFF, 0xC3])),
+        }
+    }
+    b
+}
+
 fn gen_defs(rng: &mut Rng) -> (Value, Value) {
     let ng = 1 + rng.below(3) as usize;
     let glyphs: Vec<Value> = (0..ng)
@@ -801,13 +958,14 @@ fn gen_w(rng: &mut Rng, v: &mut Vec<Value>) {
     let (gd, id) = gen_defs(rng);
     let (ng, ni) = (gd.as_array().unwrap().len(), id.as_array().unwrap().len());
     let glyphs = rng.chance(1, 2);
+    let tty_case = rng.chance(2, 5);
     let base = |ops: Vec<Value>| json!({"k": "w", "H": h, "W": w, "len": len, "vops": vops, "shape": shape, "glyphs": glyphs, "glyph_defs": gd, "image_defs": id, "ops": ops});
     if rng.chance(1, 6) {
         // every partition of a short byte string, as a family of cases
-        let mut b = gen_bytes(rng, 3);
-        b.truncate(6);
-        let pre: Vec<Value> = if rng.chance(1, 2) { vec![json!({"o": "face", "face": gen_face(rng)})] } else { vec![] };
-        let via = if rng.chance(1, 3) { "utf8" } else { "writer" };
+        let mut b = if tty_case { gen_tty_bytes(rng, 2) } else { gen_bytes(rng, 3) };
+        b.truncate(if tty_case { 7 } else { 6 });
+        let pre: Vec<Value> = if rng.chance(1, 2) { vec![json!({"o": "face", "face": gen_face_plain_underline(rng)})] } else { vec![] };
+        let via = if tty_case { "tty" } else if rng.chance(1, 3) { "utf8" } else { "writer" };
         let n = b.len();
         for mask in 0..(1u32 << n.saturating_sub(1)) {
             let mut chunks = vec![];
@@ -835,8 +993,13 @@ fn gen_w(rng: &mut Rng, v: &mut Vec<Value>) {
                 c["o"] = json!("cell");
                 c
             }
-            6 => json!({"o": "face", "face": gen_face(rng)}),
+            6 => json!({"o": "face", "face": if tty_case { gen_face_plain_underline(rng) } else { gen_face(rng) }}),
             7 => json!({"o": "wraps", "b": rng.chance(1, 2)}),
+            _ if tty_case && rng.chance(2, 3) => {
+                let b = gen_tty_bytes(rng, 6);
+                let chunks = random_cuts(rng, &b);
+                json!({"o": "write", "via": "tty", "chunks": chunks.iter().map(|c| jbytes(c)).collect::<Vec<_>>()})
+            }
             _ => {
                 let b = gen_bytes(rng, 6);
                 let chunks = random_cuts(rng, &b);
@@ -893,6 +1056,6 @@ pub fn batch(inputs: &[Value]) -> Batch {
         report_fn: "c09_report",
         rule: "writer program over a window of >= 2 cells that is a proper part of the canvas and contains a multi-chunk write or a wide / zero-width / tab / newline / glyph / image cell; or a text whose layout has >= 2 cells; distinct by input",
         cases: inputs.iter().map(run).collect(),
-        preamble: String::new(),
+        preamble: dfa_preamble(),
     }
 }
